@@ -347,6 +347,12 @@ pub fn oracle_c09_c10(op: &str, outs: &[String], check_c09: bool, check_c10: boo
         if (w0 == "rx1" || w0 == "rx2") && check_c09 {
             let w: Vec<&str> = ev.split_whitespace().collect();
             pending_cmd = None;
+            if out.contains("resp=SessionExpired") && w.len() >= 11 && w[3] == "d" && w[7] != "-" {
+                // an authentic frame at the exhausted uplink counter is answered SessionExpired, and
+                // its MAC commands may have been executed all the same: the commanded level is unknown
+                commanded = None;
+                prev_commanded = None;
+            }
             if out.contains("DownlinkReceived") && w.len() >= 11 && w[3] == "d" {
                 let fopts = if w[8] == "-" { vec![] } else { unhex(w[8]) };
                 let payload = if w[10] == "-" { vec![] } else { unhex(w[10]) };
